@@ -1,7 +1,11 @@
 (* Transcript interface for Client.Do (C04, C10).
 
-   scenario   (sc <sel|ins|str> <compressed t|f> <gate column t|f> <rows0> (<ok|eof|eoft|err>...)
-                  ((<avail> <data|tot|prog|prof|tc|info|end|exc|unk|unx|mal> [ok|err])...) <n | (k t|f)> <n | (k t|f)>)
+   scenario   (sc <sel|ins|str|selx> <compressed t|f> <gate column t|f> <rows0> (<ok|eof|eoft|err>...)
+                  ((<avail> <data|tot|prog|prof|tc|info|end|exc|unk|unx|mal> [ok|err|errx])...) <n | (k t|f)> <n | (k t|f)>
+                  [(<cwf|cle>...)])
+              errx: the callback fails with an error that wraps a *ch.Exception (PContX)
+              selx: sendQuery fails (external data that cannot be encoded); the optional tenth element lists
+              environment faults: cwf = the Write of the Cancel packet fails, cle = conn.Close reports an error
    commands   do <sc> (<coarse item>...)      ->  the observation, in the format of harness/c04.go
               ex <sc> (<coarse item>...)      ->  <state key> | <enabled coarse items> | <plan> | <observation or nonterminal> | <flags>
    coarse items: s r rt w m env.  "Release role X at its gate (rt: the held Read times out), then let every
@@ -27,7 +31,9 @@ Definition get_pkt (x : sx) : option (nat * spkt) :=
                 | [r] => if is_sym r "err" then Some false else Some true
                 | _ => Some true
                 end in
-      if is_sym k "data" || is_sym k "tot" || is_sym k "prog" || is_sym k "prof" then Some (a, PCont cb)
+      if (is_sym k "data" || is_sym k "tot" || is_sym k "prog" || is_sym k "prof")
+         && match rest with [r] => is_sym r "errx" | _ => false end then Some (a, PContX)
+      else if is_sym k "data" || is_sym k "tot" || is_sym k "prog" || is_sym k "prof" then Some (a, PCont cb)
       else if is_sym k "tc" then Some (a, PCont None)
       else if is_sym k "info" then Some (a, PInfo)
       else if is_sym k "end" then Some (a, PEnd)
@@ -46,20 +52,27 @@ Definition get_fault (x : sx) : option (option (nat * bool)) :=
        end.
 
 Definition get_kind (x : sx) : option qkind :=
-  if is_sym x "sel" then Some QSel else if is_sym x "ins" then Some QIns else if is_sym x "str" then Some QStr else None.
+  if is_sym x "sel" then Some QSel else if is_sym x "ins" then Some QIns else if is_sym x "str" then Some QStr
+  else if is_sym x "selx" then Some QSelX else None.
 
-Definition get_scen (x : sx) : option scen :=
-  match x with
-  | L [h; k; c; g; r0; L rounds; L script; cutx; wfx] =>
+Definition has_flag (f : string) (l : list sx) : bool := existsb (fun x => is_sym x f) l.
+
+Definition get_scen9 (h k c g r0 : sx) (rounds script : list sx) (cutx wfx : sx) (flags : list sx) : option scen :=
     if is_sym h "sc" then
       match get_kind k, get_abool c, get_abool g, get_nat r0, map_opt get_cbr rounds, map_opt get_pkt script,
             get_fault cutx, get_fault wfx with
       | Some k, Some c, Some g, Some r0, Some rounds, Some script, Some cutv, Some wf =>
-        Some {| sc_insert := match k with QSel => false | _ => true end;
-                sc_prog := compile k c g r0 rounds; sc_script := script; sc_cut := cutv; sc_wfault := wf |}
+        Some {| sc_insert := match k with QSel | QSelX => false | _ => true end;
+                sc_prog := compile k c g r0 rounds; sc_script := script; sc_cut := cutv; sc_wfault := wf;
+                sc_cancel_wfault := has_flag "cwf" flags; sc_close_err := has_flag "cle" flags |}
       | _, _, _, _, _, _, _, _ => None
       end
-    else None
+    else None.
+
+Definition get_scen (x : sx) : option scen :=
+  match x with
+  | L [h; k; c; g; r0; L rounds; L script; cutx; wfx] => get_scen9 h k c g r0 rounds script cutx wfx []
+  | L [h; k; c; g; r0; L rounds; L script; cutx; wfx; L flags] => get_scen9 h k c g r0 rounds script cutx wfx flags
   | _ => None
   end.
 
@@ -248,8 +261,14 @@ Definition action (sc : scen) (c : cst) (i : citem) : sx :=
       end
     | _ => asym "-"
     end
-  | CW => match wmd s with WWrite => if closed s then asym "cl" else asym "ok" | _ => asym "-" end
-  | CM => match mmd s with MCancelWrite => if closed s then asym "cl" else asym "ok" | _ => asym "-" end
+  | CW => match wmd s with
+          | WWrite => if closed s then asym "cl" else if sc_cancel_wfault sc then L [asym "f"; abool false] else asym "ok"
+          | _ => asym "-"
+          end
+  | CM => match mmd s with
+          | MCancelWrite => if closed s then asym "cl" else if sc_cancel_wfault sc then L [asym "f"; abool false] else asym "ok"
+          | _ => asym "-"
+          end
   | CEnv => asym "-"
   end.
 
@@ -293,7 +312,8 @@ Definition gate_kind (c : cst) (i : citem) : sx :=
   | CEnv => asym "-"
   end.
 
-Definition no_cst : cst := {| fine := init {| sc_insert := false; sc_prog := []; sc_script := []; sc_cut := None; sc_wfault := None |};
+Definition no_cst : cst := {| fine := init {| sc_insert := false; sc_prog := []; sc_script := []; sc_cut := None; sc_wfault := None;
+                                              sc_cancel_wfault := false; sc_close_err := false |};
                               hs := false; hr := false; hw := false; hm := false; ambiguous := false; trace := [] |}.
 
 Fixpoint crun (sc : scen) (c : cst) (items : list citem) (plan : list sx) (bad : bool) : cst * list sx * bool :=
@@ -389,7 +409,9 @@ Definition run_cmd (xs : list sx) : option (list sx) :=
 
 (* ---------------------------------------------------------------- handshake
    hs <addendum t|f> <hello|exc|bad|eof> <cancel instant 0..3 | n> <watchdog first t|f>
-   ->  ok res=<nil|err> ctx=<t|f> closed=<t|f> *)
+   ->  ok res=<nil|err> ctx=<t|f> closed=<t|f>
+   "watchdog first" at instant 1 / 3 = the hello / addendum Write STALLS until the connection is closed (the model's
+   environment choices st1 / st2): only the watchdog's Close ends it *)
 Definition get_reply (x : sx) : option hreply :=
   if is_sym x "hello" then Some HrHello else if is_sym x "exc" then Some HrExc
   else if is_sym x "bad" then Some HrBad else if is_sym x "eof" then Some HrEof else None.
@@ -413,7 +435,9 @@ Definition run_hs (xs : list sx) : option (list sx) :=
         let at_ := if is_sym i "n" then Some None else option_map Some (get_nat i) in
         match at_ with
         | Some at_ =>
-          let s := hrun true a r (hs_sched at_ w) hinit in
+          let st1 := w && match at_ with Some 1 => true | _ => false end in
+          let st2 := w && match at_ with Some 3 => true | _ => false end in
+          let s := hrun true a st1 st2 r (hs_sched at_ w) hinit in
           if hterminal s then
             Some [asym "ok"; kv "res" (asym (if h_ok s then "nil" else "err"));
                   kv "ctx" (abool (has_k KCtx (h_ret s))); kv "closed" (abool (h_closed s))]
